@@ -32,7 +32,12 @@ ONE_M = 1 - 2.0 ** -53
 
 
 def czz(k):
-    return "(%d)%%Z" % k
+    """Z literal; hexadecimal, so that seeds of thousands of digits pass Python's int/str conversion limit"""
+    return "(%s0x%x)%%Z" % ("-" if k < 0 else "", abs(k))
+
+
+def hexint(k):
+    return ("-" if k < 0 else "") + hex(abs(k))
 
 
 def cfx(x):
@@ -232,8 +237,8 @@ def run(ctx):
     nscripts = 40 if ctx.quick else 400
     scripts = [(ctx.rng.choice(seeds[:12] + [ctx.rng.getrandbits(64)]), gen_script(ctx)) for _ in range(nscripts)]
     boards = gen_boards(ctx)
-    jobs = [dict(op="mt_script", seed=enc(s), steps=[["random", 700]], limit=30) for s in seeds]
-    jobs += [dict(op="mt_script", seed=enc(s), steps=enc_steps(st), limit=30) for s, st in scripts]
+    jobs = [dict(op="mt_script", seed_hex=hexint(s), steps=[["random", 700]], limit=30) for s in seeds]
+    jobs += [dict(op="mt_script", seed_hex=hexint(s), steps=enc_steps(st), limit=30) for s, st in scripts]
     jobs += [dict(op="board", args=enc(list(par)), limit=60) for par in boards]
     res = impl.run_cases(jobs, limit=30, tag="mtc")
     rs, rsc, rb = res[:len(seeds)], res[len(seeds):len(seeds) + len(scripts)], res[len(seeds) + len(scripts):]
@@ -245,11 +250,11 @@ def run(ctx):
         ctx.evaluations += 1
         ctx.count("mt:stream")
         if "ok" not in r or not isinstance(r["ok"], list) or isinstance(r["ok"][0], dict):
-            ctx.harness_errors.append("mt_script failed for seed %d: %s" % (s, str(r)[:300]))
+            ctx.harness_errors.append("mt_script failed for seed %s: %s" % (hexint(s), str(r)[:300]))
             continue
         xs = dec(r["ok"][0])
         terms.append("(%s, %s)" % (czz(s), cfl(xs)))
-        meta.append(dict(mt_seed=str(s), steps=[["random", 700]]))
+        meta.append(dict(mt_seed=hexint(s), steps=[["random", 700]]))
     bad, e = coqrun.eval_case_files("mta", HDR, coqrun.chunked(terms, 3), lambda l: STREAM_BODY % l)
     errs += e
     ctx.corr_cases += len(terms)
@@ -262,12 +267,12 @@ def run(ctx):
     for (s, st), r in zip(scripts, rsc):
         ctx.evaluations += 1
         if "ok" not in r or len(r["ok"]) != len(st):
-            ctx.harness_errors.append("mt_script failed for seed %d: %s" % (s, str(r)[:300]))
+            ctx.harness_errors.append("mt_script failed for seed %s: %s" % (hexint(s), str(r)[:300]))
             continue
         for x, y in zip(st, r["ok"]):
             ctx.count("mt:%s%s" % (x[0], ":raises" if isinstance(y, dict) and "exc" in y else ""))
         terms.append("(%s, %s)" % (czz(s), clist([cstep(x, y) for x, y in zip(st, r["ok"])])))
-        meta.append((dict(mt_seed=str(s), steps=enc_steps(st)), r["ok"]))
+        meta.append((dict(mt_seed=hexint(s), steps=enc_steps(st)), r["ok"]))
     bad, e = coqrun.eval_case_files("mtb", HDR, coqrun.chunked(terms, 4), lambda l: SCRIPT_BODY % l)
     errs += e
     ctx.corr_cases += len(terms)
@@ -315,9 +320,9 @@ def replay(ctx, data):
     v = data.get("input") or (data.get("details") or [{}])[0].get("input") or {}
     if "mt_seed" not in v:
         return None
-    s = int(v["mt_seed"])
-    r = impl.run_cases([dict(op="mt_script", seed=enc(s), steps=v["steps"], limit=60)])[0]
-    print("random.seed(%d); %s ->" % (s, str(v["steps"])[:300]), str(r)[:1500])
+    s = int(v["mt_seed"], 16)
+    r = impl.run_cases([dict(op="mt_script", seed_hex=v["mt_seed"], steps=v["steps"], limit=60)])[0]
+    print("random.seed(%s); %s ->" % (v["mt_seed"], str(v["steps"])[:300]), str(r)[:1500])
     if "ok" not in r:
         return 1
     steps = [[st[0], dec(st[1]), dec(st[2]), st[3]] if st[0] == "choices" else
